@@ -300,4 +300,28 @@ def envHeaderName (k : Str) : Option Str :=
 def reqHeaders (env : List (Str × Str)) : Headers.Hs :=
   env.filterMap fun kv => (envHeaderName kv.1).map fun n => (n, kv.2)
 
+/-! ### `Request.read`: the handler reads the (unbuffered) body itself, in pieces -/
+
+/-- what is left of the declared body, and the unread part of `wsgi.input` -/
+structure RdSt where
+  todo : Nat
+  src : Bytes
+deriving Repr
+
+/-- `req.read(k)`; `none` = no size (or a negative one): the rest of the declared body -/
+def reqRead (s : RdSt) (k : Option Nat) : Bytes × RdSt :=
+  let n := match k with
+    | none => s.todo
+    | some k => min k s.todo
+  let out := s.src.take n
+  (out, { todo := s.todo - out.length, src := s.src.drop n })
+
+/-- a sequence of reads: the pieces returned, in order -/
+def reqReads : RdSt → List (Option Nat) → List Bytes × RdSt
+  | s, [] => ([], s)
+  | s, k :: ks =>
+    let r := reqRead s k
+    let rest := reqReads r.2 ks
+    (r.1 :: rest.1, rest.2)
+
 end Poor.Query
